@@ -610,7 +610,7 @@ class MinMaxAggregator:
         rest_cond: list[AST] = []
         oldmax: Optional[AST] = None
         for cond in stm.body:
-            if minmaxpred is not None and list(map(lambda x: x.pred, predicates(cond, {Sign.NoSign}))) == [
+            if minmaxpred is not None and is_predicate(cond) and list(map(lambda x: x.pred, predicates(cond, {Sign.NoSign}))) == [
                 minmaxpred[1].oldpred
             ]:
                 oldmax = cond
@@ -670,7 +670,7 @@ class MinMaxAggregator:
                 log.info(f"Cannot optimize {loc2str(loc)} as the tuple is not unique.")
 
         for cond in elem.condition:
-            if minmaxpred is not None and list(map(lambda x: x.pred, predicates(cond, {Sign.NoSign}))) == [
+            if minmaxpred is not None and is_predicate(cond) and list(map(lambda x: x.pred, predicates(cond, {Sign.NoSign}))) == [
                 minmaxpred[1].oldpred
             ]:
                 oldmax = cond
@@ -686,9 +686,8 @@ class MinMaxAggregator:
         term_tuple = elem.terms
         # split condition into the max predicate + translation and the rest
         old_max, minmaxpred, rest_cond = self._split_element(term_tuple[0].location, elem, rest_elems)
-        if minmaxpred is None:
+        if minmaxpred is None or old_max is None:
             return [elem]
-        assert old_max is not None
 
         if term_tuple[0].ast_type == ASTType.Variable:
             varname = term_tuple[0].name
